@@ -1,6 +1,179 @@
 package main
 
+import (
+	"fmt"
+	"sort"
+	"strings"
+
+	"golang.org/x/tools/go/ssa"
+)
+
 // selftestInto: thorough-tier replay of mutant specs (DESIGN.md 2.6). Filled in by mutants.go.
 func selftestInto(r *Report, id, repo, verif string) {
 	replayMutants(r, id, repo, verif)
+}
+
+type fixtureResult struct {
+	Cases    int      `json:"cases"`
+	Failures []string `json:"failures,omitempty"`
+	Detail   []string `json:"detail"`
+}
+
+// engineFixture analyses /verif/checker/fixture (DESIGN.md 2.4) with the generic engines and
+// compares the verdict per function with the expectation encoded in the function's name: a
+// function whose name starts with "bad", "leak", "unlocked", "early", "oneBranch" or "racy" must
+// be reported, every other one must not. A rule whose expected number of reports on the library is
+// zero is thereby shown, on every run, to be able to report.
+func engineFixture(verif string) (res fixtureResult) {
+	defer func() {
+		if e := recover(); e != nil {
+			res.Failures = append(res.Failures, fmt.Sprintf("panic: %v", e))
+		}
+	}()
+	c, err := Load(verif+"/checker/fixture", "linux", "amd64")
+	if err != nil {
+		res.Failures = append(res.Failures, "load: "+err.Error())
+		return
+	}
+	const pkg = "engfix"
+	if c.Pkg(pkg) == nil {
+		res.Failures = append(res.Failures, "fixture package not found")
+		return
+	}
+	expect := func(engine, fn string, reported bool) {
+		res.Cases++
+		wantBad := false
+		for _, p := range []string{"bad", "leak", "unlocked", "early", "oneBranch", "racy"} {
+			if strings.HasPrefix(fn, p) {
+				wantBad = true
+			}
+		}
+		res.Detail = append(res.Detail, fmt.Sprintf("%s %s reported=%v expected=%v", engine, fn, reported, wantBad))
+		if reported != wantBad {
+			res.Failures = append(res.Failures, fmt.Sprintf("%s: %s reported=%v, expected %v", engine, fn, reported, wantBad))
+		}
+	}
+	base := func(fn *ssa.Function) string {
+		for fn.Parent() != nil {
+			fn = fn.Parent()
+		}
+		return fn.Name()
+	}
+
+	// E1 + fact engine (no compiler oracle: every site goes to the prover)
+	{
+		r := NewReport("FIX", "quick")
+		r.Rule("fix-crash", 1, "fixture")
+		crashInventory(c, r, crashCfg{rule: "fix-crash", entries: []*ssa.Function{c.Func(pkg, "Entry")}, noCompiler: true})
+		bad := map[string]bool{}
+		seen := map[string]bool{}
+		for _, o := range r.Obs {
+			name := o.Where[strings.LastIndex(o.Where, ".")+1:]
+			seen[name] = true
+			if o.State == Violated || o.State == Undecided {
+				bad[name] = true
+			}
+		}
+		for _, n := range []string{"badIndex", "goodIndex", "goodExitGuard", "badExitGuardSameBlock", "badSlice", "goodSlice", "goodLoop", "badLoop", "goodSum", "badSum"} {
+			if !seen[n] {
+				res.Failures = append(res.Failures, "fact engine: no site found in "+n)
+				continue
+			}
+			expect("fact-engine", n, bad[n])
+		}
+	}
+
+	// E3 taint
+	{
+		sinkFn := c.Func(pkg, "sink")
+		cleanFn := c.Func(pkg, "clean")
+		tn := newTaint(taintCfg{
+			c:         c,
+			inScope:   func(fn *ssa.Function) bool { return true },
+			cleanCall: func(string) bool { return false },
+			guarded: func(v ssa.Value, use ssa.Instruction) bool {
+				if use.Block() == nil {
+					return false
+				}
+				for _, cd := range condsAt(use.Block()) {
+					if call, ok := cd.V.(*ssa.Call); ok && call.Call.StaticCallee() == cleanFn && cd.Truth && pathOf(call.Call.Args[0]) == pathOf(v) {
+						return true
+					}
+				}
+				return false
+			},
+		})
+		entry := c.Func(pkg, "TaintEntry")
+		tn.mark(entry.Params[0], nil)
+		tn.run()
+		got := map[string]bool{}
+		seen := map[string]bool{}
+		for _, fn := range c.SrcFuncs(pkg) {
+			for _, ci := range allCalls(fn) {
+				if ci.Common().StaticCallee() != sinkFn {
+					continue
+				}
+				seen[fn.Name()] = true
+				if tn.tainted[ci.Common().Args[0]] {
+					got[fn.Name()] = true
+				}
+			}
+		}
+		for _, n := range []string{"leak", "leakThroughField", "leakThroughCallee", "sanitised", "notSmeared"} {
+			if !seen[n] {
+				res.Failures = append(res.Failures, "taint: no sink call found in "+n)
+				continue
+			}
+			expect("taint", n, got[n])
+		}
+	}
+
+	// must-hold lockset
+	{
+		isMu := func(ci ssa.CallInstruction, method string) bool {
+			return callName(ci.Common()) == "sync.Mutex."+method && len(ci.Common().Args) > 0 && strings.HasSuffix(pathOf(ci.Common().Args[0]), "mu")
+		}
+		isLock := func(ci ssa.CallInstruction) bool { return isMu(ci, "Lock") }
+		isUnlock := func(ci ssa.CallInstruction) bool { return isMu(ci, "Unlock") }
+		for _, n := range []string{"lockedAccess", "unlockedAccess", "earlyUnlock", "oneBranchOnly"} {
+			fn := c.Func(pkg, n)
+			held := heldAt(fn, isLock, isUnlock)
+			found, unprotected := false, false
+			eachInstr(fn, func(_ *ssa.BasicBlock, _ int, in ssa.Instruction) {
+				if lk, ok := in.(*ssa.Lookup); ok && strings.HasSuffix(pathOf(lk.X), "reg") {
+					found = true
+					if !held[in] {
+						unprotected = true
+					}
+				}
+			})
+			if !found {
+				res.Failures = append(res.Failures, "lockset: no registry access found in "+n)
+				continue
+			}
+			expect("lockset", n, unprotected)
+		}
+	}
+
+	// E4 goroutine sharing
+	{
+		r := NewReport("FIX", "quick")
+		r.Rule("fix-race", 1, "fixture")
+		n := raceRule(c, r, "fix-race", pkg, nil)
+		bad := map[string]bool{}
+		for _, o := range r.Obs {
+			if o.State == Violated || o.State == Undecided {
+				bad[o.Where[strings.LastIndex(o.Where, ".")+1:]] = true
+			}
+		}
+		if n != 3 {
+			res.Failures = append(res.Failures, fmt.Sprintf("goroutine analysis: %d go statements found in the fixture, expected 3", n))
+		}
+		for _, f := range []string{"racy", "viaAtomic", "beforeGoOnly"} {
+			expect("goroutine-sharing", f, bad[f])
+		}
+	}
+	_ = base
+	sort.Strings(res.Detail)
+	return res
 }
